@@ -980,6 +980,12 @@ def run(ctx, report):
     from .c12 import operand_ownership_rule
     operand_ownership_rule(ctx, R9)
 
+    # ---------------------------------------------------------------- D11 rendering is a read (shared with C09.D11 / C12.D11)
+    R11 = report.rule('C01.D11', 'the Intel rendering shows the decoded instruction and leaves it as decoded: __str__ and the flow-metadata methods change nothing reachable from self '
+                      '(the mandatory prefix an SSE mnemonic is chosen by is removed from a copy of the prefix list)', floor=4)
+    from .c12 import readonly_methods_rule
+    readonly_methods_rule(ctx, R11)
+
 
 MUTANTS = [
     ('pinsrw-mem-dword', 'miasmx/arch/ia32_arch.py', "    '#p#insrb':   x86_afs.u08, '#p#insrw':   x86_afs.u16,", "    '#p#insrb':   x86_afs.u08,", 'C01.D5'),
